@@ -617,7 +617,7 @@ def c20_r8(ctx):
         return None
     table = {}
     for tc in sorted(TYPECODE_GETTER):
-        env, _ = cases.CaseEval(f.node, absval, decide, resolve=resolve).run({"<tc>": tc})
+        env, _ = cases.CaseEval(f.node, absval, decide, resolve=resolve, tables=f.module.assigns).run({"<tc>": tc})
         table[tc] = (env or {}).get("self._get_pos", cases.UNKNOWN)
     want = dict((tc, ("getter", g)) for tc, g in TYPECODE_GETTER.items())
     ctx.ob(f, table == want, "typecode -> getter: B get_byte, H get_ushort, i get_int, I get_uint, q get_long",
